@@ -204,7 +204,8 @@ CANON_EDITS = ['none', 'alter_size', 'add', 'delete', 'add_dir']
 
 
 def shards(tier, seed):
-    out = [('idem', name) for name, _f in scen.priors()]
+    # 'unreg_corrupt_gz' (a corrupt compressed stream named Manifest.gz) is outside C03/C12, see DESIGN §C03
+    out = [('idem', name) for name, _f in scen.priors() if name != 'unreg_corrupt_gz']
     for name in CANON_PRIORS:
         for edit in CANON_EDITS:
             out.append(('canon', name, edit))
